@@ -88,7 +88,10 @@ ComplexTargets == {Complex(k, p) : k \in {"Multi", "Composite", "Directional"}, 
 
 BadTargets ==
     {NoTarget, TB("Res", ById("nope"), NoRef, NoOffset), TB("Ann", ByH(99), NoRef, NoOffset),
-     TB("Set", ById("nope"), NoRef, NoOffset)}
+     TB("Set", ById("nope"), NoRef, NoOffset),
+     \* keys and data items that do not resolve (in a known and in an unknown set)
+     TB("Key", ById("s1"), ById("nokey"), NoOffset), TB("Key", ById("nope"), ById("k1"), NoOffset),
+     TB("Data", ById("s1"), ById("nodata"), NoOffset), TB("Data", ById("s1"), ByH(99), NoOffset), TB("Data", ById("nope"), ById("d1"), NoOffset)}
     \cup {TB("Text", ByH(h), NoRef, o) : h \in LiveRes(st), o \in BadOffMenu}
     \cup {Complex("Multi", <<Complex("Multi", <<TB("Res", r, NoRef, NoOffset)>>)>>) : r \in ResRefs}
     \cup {Complex(k, <<>>) : k \in {"Multi", "Composite", "Directional"}}
